@@ -179,7 +179,11 @@ func ruleStoreOpenNonFatal(c *Ctx) {
 		// the store field is only set from a non-nil store
 		for _, e := range pr.Events {
 			if e.Kind == "store" && e.Addr.Op == "fa" && e.Addr.Name == "store" && e.Addr.Args[0].Key() == pr.Results[0].Key() {
-				if k, isNil := pr.Facts.Decide(eqTerm(e.Val, nilTerm(nil))); !(k && !isNil) {
+				// what NewStore returned (nil when it failed: the field then stays nil, as if never set) or a
+				// value known to be non-nil; anything else could be a typed nil the entries' nil test lets through
+				v := stripConvTerm(e.Val.strip())
+				fromOpen := v.IsNil() || (v.Op == "ext" && v.Name == "0" && ns.Result != nil && v.Args[0].Key() == ns.Result.Key())
+				if k, isNil := pr.Facts.Decide(eqTerm(e.Val, nilTerm(nil))); !(k && !isNil) && !fromOpen {
 					bad = append(bad, "a possibly nil store is installed (the entry would call methods on a nil interface)")
 				}
 			}
